@@ -1,7 +1,7 @@
 #!/bin/bash
 # bin/seedall.sh [tier] [dir…]: for every seeded change: confirm it, then run its property's check against it.
 TIER=${1:-quick}; shift
-cd /verif
+cd ${VROOT:-/verif}
 DIRS=${@:-seeded/*}
 for d in $DIRS; do
   [ -f $d/patch.diff ] || continue
